@@ -1,4 +1,5 @@
 import QM.LookupLemmas
+import QM.ConformModel
 /-! # C15 — repeated assignments: last wins, lists accumulate, empty assignment resets
 
 `Cv.assignments u sec key` is the *history* of raw values assigned to `key` in `sec`, in order; the
